@@ -326,6 +326,7 @@ RULE = (
     "I*lambda*1e-9/(h c N_A)/prefix with exact SI constants typed into the harness, rel. tol 1e-12. Non-trivial = N-D input with "
     "the wavelength not on the last axis, or quantity input, or a non-empty prefix."
     " The unit in which plain numbers are stated (irr_units / flux_units) is drawn from {default, none, milli, micro, nano}; spectra also as float32 (rel. tol 1e-6 when a unit conversion happens in float32) and int64 arrays."
+    " Without axis= the wavelengths may come in broadcast form: shaped (.., n, 1, ..) on any axis or already broadcast to the spectrum's shape."
 )
 
 PROP = Prop(
